@@ -327,3 +327,35 @@ func Protect(f func()) (panicked string) {
 	f()
 	return ""
 }
+
+// ReplayCase loads the "case" member of the replay file given with -replay
+// into v; it returns false when no replay was requested.
+func (c *Ctx) ReplayCase(v any) bool {
+	if c.ReplayFile == "" {
+		return false
+	}
+	b, err := os.ReadFile(c.ReplayFile)
+	if err != nil {
+		fmt.Fprintln(os.Stderr, "replay:", err)
+		os.Exit(2)
+	}
+	var r struct {
+		Case json.RawMessage `json:"case"`
+	}
+	if err := json.Unmarshal(b, &r); err != nil || len(r.Case) == 0 {
+		fmt.Fprintln(os.Stderr, "replay: no case in file")
+		os.Exit(2)
+	}
+	// a case may be wrapped as {"case": {...}, "go": ..., ...}
+	var inner struct {
+		Case json.RawMessage `json:"case"`
+	}
+	if json.Unmarshal(r.Case, &inner) == nil && len(inner.Case) > 0 {
+		r.Case = inner.Case
+	}
+	if err := json.Unmarshal(r.Case, v); err != nil {
+		fmt.Fprintln(os.Stderr, "replay:", err)
+		os.Exit(2)
+	}
+	return true
+}
